@@ -196,6 +196,7 @@ package function
 //@   requires len(buckets) >= 1
 //@   assigns elems(function.le)@buckets
 //@   ensures[C13] at-least-one-bucket-left: 1 <= len(result) && len(result) <= len(buckets)
+//@   ensures same-buffer: ref(result) == ref(buckets)
 //@   loop 0 invariant 0 <= i && i <= rangeindex + 1 && rangeindex + 1 <= len(buckets) - 1 && len(buckets) == old(len(buckets))
 //@ func ensureMonotonic
 //@   requires len(buckets) >= 1
